@@ -102,9 +102,9 @@ CLAIMS = {
     },
     "C16": {
         "engine": "E2-mirsym",
-        "text": "Loading through /include (virtual file system) is compared with loading the flattened text for every splitting of a three-element document into main + inc1 + nested inc2 with quoted/unquoted names; the written file (same directory) and the merge_includes() output must load to an equal model; a missing include must be an error naming the directive.",
+        "text": "Loading through /include (virtual file system) is compared with loading the flattened text for every splitting of a three-element document into main + inc1 + nested inc2 with quoted/unquoted names; the written file (same directory) and the merge_includes() output must load to an equal model; a missing include must be an error naming the directive. Include names in sub-directories (both separators, quoted / unquoted, decoy files of the same name next to the main file and in the current directory, A2ML /include inside an included fragment) must be resolved relative to the including file.",
         "design_ref": "DESIGN.md section 4 C16",
-        "note": "Splittings are enumerated by forking. Trusted: virtual file system model. Outside: A2ML includes, directories, separators, self-including files.",
+        "note": "Splittings and directory layouts are enumerated by forking. Trusted: virtual file system and std::path models (validated natively in a real temp directory on every sampled path). Outside: absolute paths, Windows drive prefixes, self-including files, unreadable files.",
         "technique": "bounded symbolic execution of MIR (fork per splitting), native replay against real files in a temp directory",
     },
     "C06": {
